@@ -98,6 +98,7 @@ Proof. exact LimiterLockProofs.locked_concrete. Qed.
 Print Assumptions C09_limiter_sleep_lengths.
 Print Assumptions C09_limiter_never_sleeps_negative.
 Print Assumptions C09_limiter_unlocked_refuted.
+Print Assumptions C09_limiter_threshold_nonneg.
 
 Theorem C09_source_facts : all_sched_facts = true.
 Proof. exact sched_facts_hold. Qed.
